@@ -84,14 +84,20 @@ class Interp:
         env = {}
         for i, a in enumerate(args):
             env[i + 1] = [a]
-        bb = 0
+        return self.run_from(body, 0, 0, env, depth)
+
+    def run_from(self, body, bb, first_stmt, env, depth=0):
+        """evaluate from statement `first_stmt` of block `bb` with a preset environment {local: [value]}"""
         steps = 0
+        skip = first_stmt
         while True:
             steps += 1
             if steps > self.max_steps:
                 raise Unsupported("step budget exceeded in %s" % body.path)
             blk = body.blocks[bb]
-            for st in blk["st"]:
+            sts = blk["st"][skip:]
+            skip = 0
+            for st in sts:
                 if st["s"] == "assign":
                     val = self._rvalue(body, env, st["rv"])
                     self._store(body, env, st["pl"], val)
@@ -153,9 +159,13 @@ class Interp:
                     v = v.cell[0]
                 # Box/Arc deref of plain values: transparent
             elif isinstance(e, dict) and "d" in e:
+                while isinstance(v, Ref):
+                    v = v.cell[0]
                 if not isinstance(v, Enum):
                     raise Unsupported("downcast of %r" % (v,))
             elif isinstance(e, dict) and "f" in e:
+                while isinstance(v, Ref):
+                    v = v.cell[0]
                 if isinstance(v, (Enum, Struct)):
                     if e["f"] >= len(v.fields):
                         raise Unsupported("field %d of %r" % (e["f"], v))
@@ -276,6 +286,17 @@ class Interp:
         if target is not None and depth < self.max_depth:
             return self.run(target, args, depth + 1)
         raise Unsupported("call to %s" % name)
+
+
+def deref(v):
+    while isinstance(v, Ref):
+        v = v.cell[0]
+    return v
+
+
+def eq_handler(interp, name, args):
+    a, b = deref(args[0]), deref(args[1])
+    return a == b
 
 
 def unit_variants(F, adt_path):
